@@ -34,7 +34,7 @@ SPEC = {
                     'merchant, category and tag texts have no surrounding blanks and tags contain no comma'],
 }
 
-LITS = ['NETFLIX', 'UBER', 'EATS', 'STAR', 'BUCKS', 'AMZN', 'MKTP', 'COSTCO', 'WHOLE', 'FOODS', 'GAS', 'CAF', 'SQ', 'STRASSE', 'FINE', 'CAF\u00c9', 'CAFE\u0301', 'ROMA']
+LITS = ['NETFLIX', 'UBER', 'EATS', 'STAR', 'BUCKS', 'AMZN', 'MKTP', 'COSTCO', 'WHOLE', 'FOODS', 'GAS', 'CAF', 'SQ', 'STRASSE', 'FINE', 'CAF\u00c9', 'CAFE\u0301', 'ROMA', '\U0001f355', '\U0001f3e0']
 DESCS = ['NETFLIX.COM Uber eats', 'star-BUCKS  *7', "O'Reilly Café AMZN Mktp", 'UBER EATS 42 SQ *COSTCO', 'Netflix', 'uber   eats', 'COSTCO GAS 100',
          'AMZN Mktp US*7 NETFLIX', 'SQ *STAR bucks REF:77', 'UBER TRIP 7', 'WHOLE FOODS MARKET #12 WA', 'STARBUCKS STORE 42', 'costco whole foods',
          'say "GAS" now', 'back\\slash COSTCO', 'UBERUBER', 'A+B COSTCO (x)', 'GASGAS 7', 'UBEREATS', 'Plain Unknown Vendor 99', 'EATS\tUBER',
@@ -42,6 +42,7 @@ DESCS = ['NETFLIX.COM Uber eats', 'star-BUCKS  *7', "O'Reilly Café AMZN Mktp", 
          # letters whose upper-case form is longer than the letter (the CSV path matches against description.upper())
          'Hauptstra\u00dfe 5 UBER', 'HAUPTSTRASSE 7 GAS', '\ufb01ne FOODS market', 'Stra\u00dfe',
          # the same accented word spelled with a composed letter and as letter + combining mark (macOS / iOS exports): different texts to a pattern
+         'VENMO \U0001f355 night UBER', 'rent \U0001f3e0 GAS', 'pizza \U0001f355\U0001f355 COSTCO',
          'UBER  EATS 9', 'UBER EATS 9', 'STAR   BUCKS', 'STAR BUCKS', 'COSTCO\tGAS', 'COSTCO GAS', 'SQ  *STAR',
          'CAF\u00c9 ROMA 12', 'CAFE\u0301 ROMA 12', 'caf\u00e9 roma UBER', 'cafe\u0301 roma GAS']
 
@@ -292,6 +293,43 @@ def empty_merchant_probe(rec, tmp):
     judge(rec, cr, txns, tmp, None)
 
 
+def cli_migration_run(rec, rnd, tmp, k):
+    """End to end through the settings file: `tally up` on the CSV budget, `tally up --migrate`, and `tally up` again classify every transaction alike -
+    under the default rule mode however the setting is spelled (a spelling that is not one of the two documented values is reported and read as first_match)."""
+    import json as _json
+    from vt import budget as B
+    root = os.path.join(tmp, 'cli%d' % k)
+    shutil.rmtree(root, ignore_errors=True)
+    os.makedirs(os.path.join(root, 'config'))
+    os.makedirs(os.path.join(root, 'data'))
+    mode = rnd.choice([None, 'first_match', 'First_Match', 'FIRST_MATCH', 'first-match', ' first_match'])
+    w = rnd.choice(['COSTCO', 'UBER', 'PRIME'])
+    rows = [(w, 'General %s' % w.title(), 'Shopping', 'Wholesale', ''), ('%s GAS[amount>5]' % w, '%s Gas' % w.title(), 'Transport', 'Fuel', 'car'),
+            ('%s\\s+VIDEO' % w, '%s Video' % w.title(), 'Subs', 'Video', 'tv|monthly')]
+    rnd.shuffle(rows)
+    with open(os.path.join(root, 'config', 'settings.yaml'), 'w') as f:
+        f.write('year: 2025\n' + ('rule_mode: "%s"\n' % mode if mode else '') + 'data_sources:\n  - name: Card\n    file: data/card.csv\n    format: "{date:%Y-%m-%d},{description},{amount}"\n')
+    with open(os.path.join(root, 'config', 'merchant_categories.csv'), 'w') as f:
+        f.write('Pattern,Merchant,Category,Subcategory,Tags\n' + ''.join(','.join(r) + '\n' for r in rows))
+    with open(os.path.join(root, 'data', 'card.csv'), 'w') as f:
+        f.write('Date,Description,Amount\n2025-01-03,%s GAS #0123,40.20\n2025-01-04,%s VIDEO 9,8.99\n2025-01-05,%s WHSE,120.00\n2025-01-06,OTHER SHOP,3.00\n' % (w, w, w))
+    outs = []
+    for extra in ([], ['--migrate'], []):
+        p = B.tally(root, 'up', os.path.join(root, 'config'), '--format', 'json', '-v', *extra)
+        rec.count('cli_runs')
+        try:
+            js = B.json_from_stdout(p.stdout)
+            outs.append(sorted((d, m['name'], m['category'], m['subcategory'], tuple(sorted(m.get('tags') or []))) for m in js['merchants'] for d in (m.get('raw_descriptions') or {})))
+        except Exception:
+            outs.append('no report (exit %d): %s' % (p.returncode, (p.stderr or p.stdout)[-120:]))
+    rec.case()
+    rec.count('cli_migration_runs')
+    if not (outs[0] == outs[1] == outs[2]):
+        rec.violation('classification-differs:through-the-settings-file', f'rule_mode {mode!r}, CSV rows {rows}: before migration {outs[0]}; the migrating run {outs[1]}; after {outs[2]}',
+                      {'kind': 'cli-migration'})
+    shutil.rmtree(root, ignore_errors=True)
+
+
 def short_row_probe(rec, tmp):
     """Witness of the repaired defect 072d13c: lines with fewer cells than the header (no Tags, no Subcategory cell)."""
     cr = [R.CsvRule('COSTCO', [], 'Costco', 'Food', '', []), R.CsvRule('NETFLIX', [('amount', '>', '5')], 'Netflix', 'Subs', 'Video', [])]
@@ -316,6 +354,8 @@ def run(rec, shard, nshards, t):
             judge(rec, cr, boundary_txns(rnd, cr, 30), tmp, rnd)
             if i < 1 and shard == 0:
                 rec.sample({'csv': R.render_csv(cr)})
+        for k in range(max(1, (6 if t == 'quick' else 80) // nshards)):
+            cli_migration_run(rec, rnd, tmp, k)
         if shard == 0:
             relative_probe(rec)
             sharp_s_probe(rec, tmp)
@@ -330,6 +370,14 @@ def replay(rec, case):
     rnd = core.rng_for('C14', 'replay')
     if case['kind'] == 'relative':
         relative_probe(rec)
+        return
+    if case['kind'] == 'cli-migration':
+        tmp = tempfile.mkdtemp(prefix='vt-c14-')
+        try:
+            for k in range(8):
+                cli_migration_run(rec, rnd, tmp, k)
+        finally:
+            shutil.rmtree(tmp, ignore_errors=True)
         return
     if case['kind'] == 'empty-merchant':
         tmp = tempfile.mkdtemp(prefix='vt-c14-')
